@@ -33,7 +33,9 @@ var (
 		"<!-->", "<!-- >", "<%>", "<?>", "<!>", "</>", "</title >", "</p/>", "</p\n>", "<p>hello</p >", "\"></a >", "<b>x</b x=y>", "<p>x</p>", "<br/>", "<b x='1'>", "<![CDATA[x]]>", "<!--x-->", "text "}
 	xssAttrBreaks = []string{"<a ", "<img src=x ", " ", "x ", "' ", "\" ", "` ", "x' ", "x\"/", "x`\t", "<b\n", "<b/", "<a\f", "<a\r", "<a x=1\t", "<a x='1'",
 		// closing quote of the surrounding attribute value directly followed by the injected name (no separator)
-		"'", "\"", "`", "x'", "x\"", "x`", "<a x=\"1\"", "<a x=`1`"}
+		"'", "\"", "`", "x'", "x\"", "x`", "<a x=\"1\"", "<a x=`1`",
+		// a start tag behind other markup (end tags with blanks or attributes, empty comments, complete elements)
+		"<p>hello</p ><img src=x ", "</p ><a ", "</p x=y><a ", "<!--><a ", "<%><a ", "<b>x</b><a ", "<br/><a "}
 	xssTagForms = []string{"<T>", "<T x>", "<T/>", "<T/x=1>", "<T\tx", "<T", "<T\nx=1>", "<T\fx>", "<T\r>"}
 	xssValForms = []string{"=1", "=alert(1)", "='x'", "=\"x\"", "=`x`", " = 1", "\t=\n1", "=1>", "\f=\r'x'", "=x y"}
 	xssSchemes  = []string{"javascript:alert(1)", "vbscript:x", "data:text/html,x", "view-source:x", "JaVaScRiPt:x", "&#106;avascript:x", "&#x6A;avascript:x", "&#X76iew-source:x", " \tjavascript:x", "\x01javascript:x", "jav&#x0A;ascript:x", "java\x00script:x", "&#0000106avascript:x", "\x7fdata:x", "\xa0vbscript:x", "VIEW-SOURCE:x", "d&#97;ta:x", "&#9;javascript:x",
